@@ -13,45 +13,68 @@ namespace FH
 /-- The three presentations resolve every address identically (whenever framehop can build
 its index: every FDE start expressible as a `u32` offset from the base address). -/
 theorem C12_presentations_agree (p₁ p₂ : Pres) (fdes : List Fde) (baseSvma rel : Nat)
-    (hb : indexBuilds baseSvma fdes = true) :
+    (hb : indexBuilds baseSvma (liveFdes fdes) = true) :
     dwarfLookup p₁ fdes baseSvma rel = dwarfLookup p₂ fdes baseSvma rel := by
   simp [dwarfLookup, hb]
 
 /-- Hence the unwinding plan (rule to execute / generic row / fallback) is the same. -/
 theorem C12_same_plan (A : Arch) (p₁ p₂ : Pres) (fdes : List Fde) (m : Module) (rel : Nat)
-    (first : Bool) (hb : indexBuilds m.baseSvma fdes = true) :
+    (first : Bool) (hb : indexBuilds m.baseSvma (liveFdes fdes) = true) :
     plan A { m with data := .dwarf p₁ fdes } rel first =
       plan A { m with data := .dwarf p₂ fdes } rel first := by
   simp only [plan]
   rw [C12_presentations_agree p₁ p₂ fdes m.baseSvma rel hb]
 
+/-- FDEs of length zero cover no address and never influence a lookup (since `e92347e`; before,
+one that shared its start with a real FDE and followed it in the section shadowed it). -/
+theorem C12_zero_length_fdes_are_ignored (pres : Pres) (fdes : List Fde) (baseSvma rel : Nat) :
+    dwarfLookup pres fdes baseSvma rel = dwarfLookup pres (liveFdes fdes) baseSvma rel := by
+  have : liveFdes (liveFdes fdes) = liveFdes fdes := by simp [liveFdes]
+  simp only [dwarfLookup, this]
+
+/-- The FDEs that cover something are pairwise disjoint (as sets: no order is assumed; FDEs of
+length zero may sit anywhere, also on the start of another FDE). -/
+def LiveFdesDisjoint (fdes : List Fde) : Prop :=
+  (liveFdes fdes).Pairwise (fun a b => a.stop ≤ b.start ∨ b.stop ≤ a.start)
+
+theorem LiveFdesDisjoint.toDisjoint {fdes : List Fde} (h : LiveFdesDisjoint fdes) :
+    FdesDisjoint (liveFdes fdes) :=
+  ⟨fun f hf => by simpa [liveFdes] using (List.mem_filter.mp hf).2, h⟩
+
 /-- The FDE consulted is the one covering the address whenever one exists, irrespective of
 the order of FDEs in the section. -/
 theorem C12_covering_fde_is_consulted (pres : Pres) (fdes : List Fde) (baseSvma rel : Nat)
-    (hd : FdesDisjoint fdes) (hb : indexBuilds baseSvma fdes = true) (f : Fde) (hf : f ∈ fdes)
+    (hd : LiveFdesDisjoint fdes) (hb : indexBuilds baseSvma (liveFdes fdes) = true)
+    (f : Fde) (hf : f ∈ fdes)
     (hc : f.start ≤ baseSvma + rel ∧ baseSvma + rel < f.stop) (hlt : baseSvma + rel < U64) :
     dwarfLookup pres fdes baseSvma rel =
       match f.rowFor (baseSvma + rel) with
       | some r => .row r
       | none => .uncovered := by
+  have hlive : f ∈ liveFdes fdes := by
+    refine List.mem_filter.mpr ⟨hf, ?_⟩
+    have : f.stop = f.start + f.len := rfl
+    simp only [decide_eq_true_eq]
+    omega
   simp only [dwarfLookup, hb]
-  rw [lookup_finds_covering_fde fdes hd f hf (baseSvma + rel) hc]
+  rw [lookup_finds_covering_fde (liveFdes fdes) hd.toDisjoint f hlive (baseSvma + rel) hc]
   simp only [Bool.not_true, Bool.false_eq_true, and_false, if_false]
   rw [if_neg (by omega)]
   cases f.rowFor (baseSvma + rel) <;> rfl
 
 /-- Section order is irrelevant: permuting the FDEs does not change what is found. -/
 theorem C12_section_order_irrelevant (pres : Pres) (fdes fdes' : List Fde) (baseSvma rel : Nat)
-    (hp : fdes.Perm fdes') (hd : FdesDisjoint fdes) (hb : indexBuilds baseSvma fdes = true)
+    (hp : fdes.Perm fdes') (hd : LiveFdesDisjoint fdes)
+    (hb : indexBuilds baseSvma (liveFdes fdes) = true)
     (f : Fde) (hf : f ∈ fdes)
     (hc : f.start ≤ baseSvma + rel ∧ baseSvma + rel < f.stop) (hlt : baseSvma + rel < U64) :
     dwarfLookup pres fdes baseSvma rel = dwarfLookup pres fdes' baseSvma rel := by
-  have hd' : FdesDisjoint fdes' :=
-    ⟨fun g hg => hd.1 g (hp.symm.subset hg),
-     hd.2.perm hp (by intro x y h; rcases h with h | h; exact Or.inr h; exact Or.inl h)⟩
-  have hb' : indexBuilds baseSvma fdes' = true := by
+  have hpl : (liveFdes fdes).Perm (liveFdes fdes') := hp.filter _
+  have hd' : LiveFdesDisjoint fdes' :=
+    List.Pairwise.perm hd hpl (by intro x y h; rcases h with h | h; exact Or.inr h; exact Or.inl h)
+  have hb' : indexBuilds baseSvma (liveFdes fdes') = true := by
     simp only [indexBuilds, List.all_eq_true] at *
-    intro g hg; exact hb g (hp.symm.subset hg)
+    intro g hg; exact hb g (hpl.symm.subset hg)
   rw [C12_covering_fde_is_consulted pres fdes baseSvma rel hd hb f hf hc hlt,
     C12_covering_fde_is_consulted pres fdes' baseSvma rel hd' hb' f (hp.subset hf) hc hlt]
 
@@ -59,19 +82,22 @@ theorem C12_section_order_irrelevant (pres : Pres) (fdes fdes' : List Fde) (base
 way in all presentations: never a row — `uncovered` when the table is non-empty, a failed
 lookup when it is empty. -/
 theorem C12_uncovered_addresses (pres : Pres) (fdes : List Fde) (baseSvma rel : Nat)
-    (hb : indexBuilds baseSvma fdes = true)
+    (hb : indexBuilds baseSvma (liveFdes fdes) = true)
     (hn : ∀ f ∈ fdes, ¬(f.start ≤ baseSvma + rel ∧ baseSvma + rel < f.stop))
     (hlt : baseSvma + rel < U64) :
-    dwarfLookup pres fdes baseSvma rel = (if fdes = [] then .failed else .uncovered) := by
+    dwarfLookup pres fdes baseSvma rel = (if liveFdes fdes = [] then .failed else .uncovered) := by
   have hcond : ¬ (pres ≠ Pres.hdr ∧ (!true) = true) := by simp
   have hlt' : ¬ (U64 ≤ baseSvma + rel) := by omega
+  have hn' : ∀ f ∈ liveFdes fdes, ¬(f.start ≤ baseSvma + rel ∧ baseSvma + rel < f.stop) :=
+    fun f hf => hn f (List.mem_filter.mp hf).1
   simp only [dwarfLookup, hb, hcond, if_false, hlt']
-  cases hl : lastLE (baseSvma + rel) (sortByStart fdes) with
+  generalize liveFdes fdes = live at hn' ⊢
+  cases hl : lastLE (baseSvma + rel) (sortByStart live) with
   | none =>
-    have : fdes = [] := by
-      cases hs : sortByStart fdes with
+    have : live = [] := by
+      cases hs : sortByStart live with
       | nil =>
-        have hp := sortByStart_perm fdes
+        have hp := sortByStart_perm live
         rw [hs] at hp
         exact (List.Perm.nil_eq hp).symm
       | cons y ys =>
@@ -80,8 +106,19 @@ theorem C12_uncovered_addresses (pres : Pres) (fdes : List Fde) (baseSvma rel : 
         split at hl <;> (try split at hl) <;> cases hl
     simp [this]
   | some g =>
-    have hne : fdes ≠ [] := by
+    have hne : live ≠ [] := by
       intro e; subst e; simp [sortByStart, lastLE] at hl
-    simp only [uncovered_address_has_no_row fdes _ hn g hl, hne, if_false]
+    simp only [uncovered_address_has_no_row live _ hn' g hl, hne, if_false]
+
+/-- Non-vacuity, and the case the repair `e92347e` is about: a zero-length FDE that shares its
+start with a real FDE and follows it in the section does not hide it. -/
+example :
+    let real : Fde := { start := 0x2000, len := 0x40, rows := [(0x2000, default)], evalFails := false }
+    let zero : Fde := { start := 0x2000, len := 0, rows := [], evalFails := false }
+    LiveFdesDisjoint [real, zero] ∧ indexBuilds 0 (liveFdes [real, zero]) = true ∧
+      dwarfLookup .indexEh [real, zero] 0 0x2005 = dwarfLookup .indexEh [zero, real] 0 0x2005 := by
+  refine ⟨?_, by decide, ?_⟩
+  · simp [LiveFdesDisjoint, liveFdes]
+  · rfl
 
 end FH
